@@ -138,6 +138,26 @@ theorem obtain_eq_iff (db : Db) (g : Guard) (ops : List Op) (i j : Nat) (a b : Q
     qeq (reach db g ops).st.heap a b = true ↔ contentEq (reach db g ops).st.heap a b = true :=
   ⟨qeq_contentEq, fun h => (contentEq_qeq (reachable_invariant db g ops).inv ha hb h).1⟩
 
+/-- **requests that resolve to the same category, unit and caption return equal quantities; requests
+that resolve differently return unequal ones**: for two `(category, unit, caption)` entries of the
+cache after any history (e.g. a legacy spelling and the current one, caption `None` and `""`), the
+quantities are equal exactly when the units resolve alike (`CheckCategoryUnit` + legacy retry) and
+the captions denote the same string -/
+theorem same_resolution_equal (db : Db) (g : Guard) (ops : List Op) (cat u1 u2 : Sym) (cap1 cap2 : Option Sym)
+    (i j : Nat)
+    (h1 : lookupKey (reach db g ops).st.cache (.simple (some cat) (some u1) cap1) = some i)
+    (h2 : lookupKey (reach db g ops).st.cache (.simple (some cat) (some u2) cap2) = some j) :
+    ∃ a b, (reach db g ops).st.objs[i]? = some a ∧ (reach db g ops).st.objs[j]? = some b ∧
+      (qeq (reach db g ops).st.heap a b = true ↔
+        (resolveSimpleUnit db cat u1 = resolveSimpleUnit db cat u2 ∧ capStr cap1 = capStr cap2)) := by
+  have hs := (reachable_invariant db g ops).inv
+  obtain ⟨a, r1, v1, ha, _, ham, hah, har, hac⟩ := hs.simpleKey _ _ _ _ h1
+  obtain ⟨b, r2, v2, hb, _, hbm, hbh, hbr, hbc⟩ := hs.simpleKey _ _ _ _ h2
+  refine ⟨a, b, ha, hb, ?_⟩
+  rw [har, hbr]
+  simp only [qeq, ham, hbm, readMap, hah, hbh, hac, hbc, Bool.and_eq_true, beq_iff_eq, Except.ok.injEq,
+    List.cons.injEq, Prod.mk.injEq, Cell.mk.injEq, and_true, true_and]
+
 /-- **derived quantities are interned**: two live derived quantities with the same composing map and
 caption are the identical object -/
 theorem derived_identical (db : Db) (g : Guard) (ops : List Op) (i j : Nat) (a b : Quantity)
@@ -203,6 +223,20 @@ example : (do
     some (true, true) := by decide +kernel
 -- a new request creates the next object
 example : (stepState poscDb exG (reach poscDb exG exOps) (.obtain (.str sCm) (.str sLength) none)).2 = .ok 5 := by
+  decide +kernel
+
+-- a legacy spelling and the current one resolve alike: two objects, equal
+def sVolume : Sym := 111520795881334
+def sLegacy : Sym := 14483206056194097
+def sMcf : Sym := 6710093
+def exOps2 : List Op := [
+  .obtain (.str sLegacy) (.str sVolume) none,
+  .obtain (.str sMcf) (.str sVolume) (some 0)]
+example : (reach poscDb exG exOps2).results = [some 0, some 1] ∧
+    (do let a ← (reach poscDb exG exOps2).st.objs[0]?
+        let b ← (reach poscDb exG exOps2).st.objs[1]?
+        pure (qeq (reach poscDb exG exOps2).st.heap a b)) = some true ∧
+    (match resolveSimpleUnit poscDb sVolume sLegacy with | .ok u => u == sMcf | .error _ => false) = true := by
   decide +kernel
 
 end examples
